@@ -1052,6 +1052,208 @@ func yPart(p *gPart) *yaml.Node {
 	return n
 }
 
+// ---------------------------------------------------------------- limit ladders
+//
+// A ladder document is a chain of three or four queue levels (root included) with limit entries for the SAME subject
+// (a named user, a named group, the user wildcard, the group wildcard, or a named user below wildcard entries) on most
+// levels, where the levels name different, partly overlapping sets of resource types (memory only / vcore only / both / a
+// third type).  The values are drawn around what the subject inherited from ALL the levels above (below / equal / above),
+// so the verdict depends on the limit that checkLimitResource hands down through a level that does not name a type
+// (ComponentWiseMin over the union of the types).  Side leaves hang off the chain with their own entry for the subject.
+
+type ladderSubject struct {
+	group bool
+	names []string // the name used on a level is drawn from here ("alice"; "*"; or both for the mixed layout)
+	kind  string
+}
+
+var ladderTypeSets = [][]string{
+	{"memory"}, {"memory"}, {"memory"}, {"vcore"}, {"vcore"}, {"vcore"}, {"memory", "vcore"}, {"memory", "vcore"}, {"memory", "vcore"},
+	{"nvidia.com/gpu"}, {"nvidia.com/gpu"}, {"memory", "nvidia.com/gpu"}, {"vcore", "nvidia.com/gpu"}, {"memory", "vcore", "nvidia.com/gpu"}, {"pods"}, {"vcore", "pods"},
+}
+
+// ladderEntry draws the limit entry of one subject on one queue; par is what the validator hands down to this queue for
+// users or groups (name -> union-minimum of the levels above), cur is what this queue hands down
+func (g *cgen) ladderEntry(s ladderSubject, label string, par, cur map[string]budget, apps uint64) gLimit {
+	c := g.c
+	name := s.names[c.pick(len(s.names))]
+	l := gLimit{Label: label, MaxApps: apps}
+	bound, bounded := par[name]
+	if !bounded && name != "*" {
+		// a name without an entry above is compared with the wildcard entry above
+		bound, bounded = par["*"]
+	}
+	types := ladderTypeSets[c.pick(len(ladderTypeSets))]
+	if bounded && c.chance(0.35) {
+		// aim at a type the nearest levels may not name: one the inherited limit has
+		var have []string
+		for _, t := range resTypes {
+			if _, ok := bound[t]; ok {
+				have = append(have, t)
+			}
+		}
+		if len(have) > 0 {
+			types = []string{have[c.pick(len(have))]}
+			if c.chance(0.3) {
+				extra := resTypes[c.pick(len(resTypes))]
+				if extra != types[0] {
+					types = append(types, extra)
+				}
+			}
+		}
+	}
+	vals := budget{}
+	var m smap
+	for _, t := range resTypes { // fixed order of the types, the document is shuffled later
+		in := false
+		for _, x := range types {
+			in = in || x == t
+		}
+		if !in {
+			continue
+		}
+		sc := resScale[t]
+		var v int64
+		b, ok := bound[t]
+		switch {
+		case !ok:
+			v = int64(2+c.pick(14)) * sc
+		case c.chance(0.17):
+			v = b + int64(1+c.pick(2))*sc // above
+		case c.chance(0.3) || b <= sc:
+			v = b // equal
+		default:
+			v = int64(1+c.pick(int(b/sc)-1)) * sc // below, never zero
+		}
+		if v <= 0 {
+			v = sc
+		}
+		vals[t] = v
+		m = append(m, kv{t, g.qty(t, v)})
+	}
+	l.MaxRes = &m
+	if s.group {
+		l.Groups = []string{name}
+		if name == "*" {
+			// the group wildcard may not be the only group of a queue: a named group goes with it
+			l.Groups = []string{"ops", "*"}
+		}
+	} else {
+		l.Users = []string{name}
+	}
+	hand := func(n string) {
+		nv := vals.clone()
+		if old, ok := par[n]; ok {
+			// the name had an entry above: the union of the types, the smaller value of each
+			for t, v := range old {
+				if x, ok := nv[t]; !ok || v < x {
+					nv[t] = v
+				}
+			}
+		}
+		cur[n] = nv
+	}
+	// (a name that only met the wildcard above hands down its own limit as it is)
+	if s.group {
+		for _, n := range l.Groups {
+			hand(n)
+		}
+	} else {
+		hand(name)
+	}
+	return l
+}
+
+func cloneBudgets(m map[string]budget) map[string]budget {
+	o := map[string]budget{}
+	for k, v := range m {
+		o[k] = v.clone()
+	}
+	return o
+}
+
+func (g *cgen) ladderQueue(name, path string, level, levels int, subjects []ladderSubject, pu, pg map[string]budget, apps uint64, pEntry float64) *gQueue {
+	c := g.c
+	q := &gQueue{Name: name}
+	g.paths = append(g.paths, path)
+	if level == 1 {
+		s := "*"
+		q.SubmitACL = &s
+	}
+	if level == 2 && c.chance(0.2) {
+		// a queue maximum far above every limit of the ladder: checkLimit compares each limit with it
+		q.M = &smap{{"memory", g.qty("memory", 64*1024)}, {"vcore", g.qty("vcore", 64000)}}
+	}
+	cu, cg := cloneBudgets(pu), cloneBudgets(pg)
+	myApps := apps
+	if apps != 0 && c.chance(0.5) {
+		myApps = 1 + uint64(c.pick(int(apps)))
+	}
+	i := 0
+	for _, s := range subjects {
+		if !c.chance(pEntry) {
+			continue
+		}
+		par, cur := pu, cu
+		if s.group {
+			par, cur = pg, cg
+		}
+		q.Limits = append(q.Limits, g.ladderEntry(s, fmt.Sprintf("l%d", i), par, cur, myApps))
+		i++
+	}
+	if level < levels {
+		names := []string{"parent", "a", "prod", "team:a"}
+		nm := names[c.pick(len(names))]
+		q.Queues = append(q.Queues, g.ladderQueue(nm, path+"."+nm, level+1, levels, subjects, cu, cg, myApps, pEntry))
+		if c.chance(0.35) {
+			// a side leaf with its own entry below the same ancestors
+			q.Queues = append(q.Queues, g.ladderQueue("side", path+".side", levels, levels, subjects, cu, cg, myApps, 0.9))
+			if c.chance(0.5) {
+				q.Queues[0], q.Queues[1] = q.Queues[1], q.Queues[0]
+			}
+		}
+		t := true
+		if c.chance(0.7) {
+			q.Parent = &t
+		}
+	} else {
+		g.leafs = append(g.leafs, path)
+	}
+	return q
+}
+
+func (g *cgen) ladderPartition() *gPart {
+	c := g.c
+	p := &gPart{HasQueues: true}
+	s := "default"
+	p.Name = &s
+	g.paths, g.leafs = nil, nil
+	pool := []ladderSubject{
+		{false, []string{"alice"}, "user"}, {true, []string{"dev"}, "group"},
+		{false, []string{"*"}, "user-wildcard"}, {true, []string{"*"}, "group-wildcard"},
+		{false, []string{"alice", "*"}, "user-mixed"}, {true, []string{"dev", "*"}, "group-mixed"},
+	}
+	k := c.pick(len(pool))
+	subjects := []ladderSubject{pool[k]}
+	c.stat("ladder:subject:" + pool[k].kind)
+	if c.chance(0.3) {
+		// a second subject of the other sort on the same queues (the two maps of the validator are independent)
+		if pool[k].group {
+			subjects = append(subjects, pool[0])
+		} else {
+			subjects = append(subjects, pool[1])
+		}
+	}
+	levels := 3 + c.pick(2)
+	c.stat(fmt.Sprintf("ladder:levels:%d", levels))
+	var apps uint64
+	if c.chance(0.25) {
+		apps = 4 + uint64(c.pick(8))
+	}
+	p.Queues = []*gQueue{g.ladderQueue("root", "root", 1, levels, subjects, map[string]budget{}, map[string]budget{}, apps, 0.85)}
+	return p
+}
+
 func (g *cgen) document() string {
 	c := g.c
 	g.focus = ""
@@ -1059,10 +1261,17 @@ func (g *cgen) document() string {
 		g.focus = []string{"limits", "limits", "resources", "apps", "rules"}[c.pick(5)]
 	}
 	g.adversarial = c.chance(0.25) || (g.focus == "limits" && c.chance(0.5))
+	if c.chance(0.15) {
+		g.focus, g.adversarial = "ladder", false
+	}
 	c.stat("focus:" + g.focus)
 	doc := yMap()
 	parts := ySeq()
-	parts.Content = append(parts.Content, yPart(g.partition(true)))
+	if g.focus == "ladder" {
+		parts.Content = append(parts.Content, yPart(g.ladderPartition()))
+	} else {
+		parts.Content = append(parts.Content, yPart(g.partition(true)))
+	}
 	if g.bad(0.06) {
 		parts.Content = append(parts.Content, yPart(g.partition(false)))
 	}
@@ -1567,6 +1776,15 @@ func runConf(c *Ctx) {
 		if c.chance(0.02) {
 			text = malform(c, text)
 		}
+		acc := c.stats["accept"]
 		runConfCase(c, text, c.rng.Int63n(1<<40), k)
+		if g.focus == "ladder" {
+			// verdict of the real validator on the ladder documents
+			if c.stats["accept"] > acc {
+				c.stat("ladder:accept")
+			} else {
+				c.stat("ladder:reject")
+			}
+		}
 	}
 }
